@@ -201,11 +201,13 @@ func c12ExecD(in []string) []string {
 type c12SrcSpec struct {
 	reads int
 	fails bool
+	soft  bool // the failure is io.ErrUnexpectedEOF itself (a source cut short: truncated gzip, cut HTTP body)
 }
 
 // c12Plan is the decoded fault placement.
 //
-//	files   g | r:f,r:f…   upload files: r successful reads of one byte each, then EOF (f=0) or an error (f=1)
+//	files   g | r:f,r:f…   upload files: r successful reads of one byte each, then EOF (f=0), an error (f=1) or
+//	                       io.ErrUnexpectedEOF itself (f=2: the sniff takes it for a short file, the copy meets it again)
 //	                       (the multipart writer sniffs up to 512 bytes with io.ReadFull before it
 //	                       writes the part header: a source failing within the window fails first)
 //	form    h<n>           n form fields
@@ -261,7 +263,7 @@ func c12ParseSrc(s string) c12SrcSpec {
 	if !ok {
 		panic("C12: bad source " + s)
 	}
-	return c12SrcSpec{reads: c12Atoi(a), fails: b == "1"}
+	return c12SrcSpec{reads: c12Atoi(a), fails: b == "1" || b == "2", soft: b == "2"}
 }
 
 func c12ParsePlan(in []string) *c12Plan {
@@ -336,6 +338,9 @@ func (s *c12Src) Read(p []byte) (int, error) {
 		return copy(p, c12Chunk), nil
 	}
 	if s.spec.fails {
+		if s.spec.soft {
+			return 0, io.ErrUnexpectedEOF
+		}
 		return 0, errC12Src
 	}
 	return 0, io.EOF
@@ -939,7 +944,7 @@ func c12Origin(err error) string {
 		return "gr"
 	case strings.Contains(msg, "c12-read"):
 		return "gb"
-	case errors.Is(err, errC12Src):
+	case errors.Is(err, errC12Src), errors.Is(err, io.ErrUnexpectedEOF) && !strings.Contains(msg, "c12-"):
 		return "gs"
 	case errors.Is(err, errC12Tr):
 		return "gt"
@@ -1062,6 +1067,10 @@ func c12SweepD(emit func(in ...string), maxLen int) {
 }
 
 func c12Src2(reads int, fails bool) string {
+	if fails && reads%3 == 1 {
+		// every third failing source breaks off with io.ErrUnexpectedEOF itself
+		return fmt.Sprintf("%d:2", reads)
+	}
 	return fmt.Sprintf("%d:%s", reads, proto.Bool(fails))
 }
 
